@@ -15,7 +15,11 @@ from typing import (
 )
 
 from pyccolo import fast
-from pyccolo.extra_builtins import TRACING_ENABLED, make_guard_name
+from pyccolo.extra_builtins import (
+    PYCCOLO_BUILTIN_PREFIX,
+    TRACING_ENABLED,
+    make_guard_name,
+)
 from pyccolo.fast import (
     EmitterMixin,
     make_composite_condition,
@@ -838,6 +842,10 @@ class ExprRewriter(ast.NodeTransformer, EmitterMixin):
 
         ret: Union[ast.Compare, ast.Call, ast.IfExp] = node
         if self.handler_predicate_by_event[TraceEvent.before_compare](untraced_node):
+            # only the operands of the first comparison are evaluated up front; the remaining comparators of a
+            # chain stay inside the deferred comparison so that it still short-circuits (the parameter names
+            # are reserved ones, so they cannot capture a name used by those comparators)
+            lhs, rhs = f"{PYCCOLO_BUILTIN_PREFIX}_x", f"{PYCCOLO_BUILTIN_PREFIX}_y"
             with fast.location_of(node):
                 ret = self.emit(
                     TraceEvent.before_compare,
@@ -845,19 +853,13 @@ class ExprRewriter(ast.NodeTransformer, EmitterMixin):
                     ret=self.make_lambda(
                         body=fast.Compare(
                             ops=node.ops,
-                            left=fast.Name("x", ast.Load()),
-                            comparators=[
-                                fast.Name(f"y_{i}", ast.Load())
-                                for i in range(len(node.comparators))
-                            ],
+                            left=fast.Name(lhs, ast.Load()),
+                            comparators=[fast.Name(rhs, ast.Load())]
+                            + node.comparators[1:],
                         ),
-                        args=[fast.arg("x", None)]
-                        + [
-                            fast.arg(f"y_{i}", None)
-                            for i in range(len(node.comparators))
-                        ],
+                        args=[fast.arg(lhs, None), fast.arg(rhs, None)],
                     ),
-                    before_expr_args=[node.left] + node.comparators,
+                    before_expr_args=[node.left, node.comparators[0]],
                 )
         if self.handler_predicate_by_event[TraceEvent.after_compare](untraced_node):
             with fast.location_of(node):
